@@ -31,6 +31,7 @@ type TypeEnv struct {
 }
 
 func NewTypeEnv(d *Decls, strMode string, byteBV bool) *TypeEnv {
+	constArrayDecls = d
 	te := &TypeEnv{d: d, ByteBV: byteBV, structs: map[string]*StructInfo{}, tags: map[string]int{}, fnIDs: map[string]int{}, atomConsts: map[string]string{}}
 	if strMode == "atom" {
 		te.StrSort = "Str"
@@ -309,9 +310,19 @@ func (te *TypeEnv) sliceSortOf(T types.Type) string {
 	return s
 }
 
-// constArray returns an array term whose every element is v.
+// constArray returns an array term whose every element is v. cvc5 accepts
+// only values in (as const ...): when v mentions an uninterpreted constant
+// (atom-mode strings, type-parameter zeros) an unconstrained array constant
+// is used instead (contents beyond a slice's length are never relied on).
+var constArrayDecls *Decls
+
 func constArray(idxSort string, v Term) Term {
 	s := ArraySort(idxSort, v.Sort)
+	if constArrayDecls != nil && (strings.Contains(v.S, "sempty") || strings.Contains(v.S, "zero_U") || strings.Contains(v.S, "zarr_")) {
+		name := "zarr_" + sanitize(s)
+		constArrayDecls.DeclareFun(name, fmt.Sprintf("(declare-const %s %s)", name, s))
+		return Term{name, s}
+	}
 	return Term{fmt.Sprintf("((as const %s) %s)", s, v.S), s}
 }
 
@@ -444,8 +455,8 @@ func (te *TypeEnv) RangeFact(T types.Type, t Term) Term {
 		return Term{fmt.Sprintf("(and (>= (fid %s) 0) (=> (= (fid %s) 0) (= (fenv %s) 0)))", t.S, t.S, t.S), "Bool"}
 	case *types.Slice:
 		te.sliceSortOf(T)
-		return Term{fmt.Sprintf("(and (<= 0 (len_%s %s)) (<= (len_%s %s) (cap_%s %s)) (=> (nil_%s %s) (= (len_%s %s) 0)) (=> (nil_%s %s) (= (cap_%s %s) 0)))",
-			t.Sort, t.S, t.Sort, t.S, t.Sort, t.S, t.Sort, t.S, t.Sort, t.S, t.Sort, t.S, t.Sort, t.S), "Bool"}
+		return Term{fmt.Sprintf("(and (<= 0 (len_%s %s)) (<= (len_%s %s) (cap_%s %s)) (<= (cap_%s %s) 9223372036854775807) (=> (nil_%s %s) (= (len_%s %s) 0)) (=> (nil_%s %s) (= (cap_%s %s) 0)))",
+			t.Sort, t.S, t.Sort, t.S, t.Sort, t.S, t.Sort, t.S, t.Sort, t.S, t.Sort, t.S, t.Sort, t.S, t.Sort, t.S), "Bool"}
 	case *types.Struct:
 		si := te.Struct(T)
 		var fs []Term
